@@ -290,6 +290,26 @@ def call_builtin(I: Interp, n: str, args, kwargs, fr: Frame, node=None):
                 if not vals:
                     st.oblige("safety", "min_max_empty", z3.BoolVal(False), line)
                     raise PathEnd()
+            elif isinstance(v, SV) and T.strip_opt(v.ty).k == "list":
+                # max/min of a symbolic list: a member that bounds every member
+                ln = I.list_len(v)
+                I.safety("ValueError", "min_max_empty", ln > 0, line)
+                ety = I.list_elty(v)
+                isr = ety.k == "float"
+                res = st.fresh(n, smt.R if isr else smt.I)
+                w = st.fresh(n + "_at", smt.I)
+                el = lambda idx: (I.num(SV(z3.Select(z3.Select(st.arr("lel"), smt.rid(v.t)), idx), ety if ety.k in ("int", "float", "bool") else T.INT))[0])  # noqa: E731
+                st.assume(z3.And(w >= 0, w < ln, el(w) == res))
+                K = st.cfg.get("ground")
+                if K:
+                    st.assume(ln <= K)
+                    for j in range(K):
+                        st.assume(z3.Implies(j < ln, (el(z3.IntVal(j)) >= res) if n == "min" else (el(z3.IntVal(j)) <= res)))
+                else:
+                    j = z3.Int(f"j!{n}{st.n_fresh}")
+                    st.n_fresh += 1
+                    st.assume(z3.ForAll([j], z3.Implies(z3.And(j >= 0, j < ln), (el(j) >= res) if n == "min" else (el(j) <= res))))
+                return SV(smt.mk_real(res) if isr else smt.mk_int(res), T.FLOAT if isr else T.INT)
             else:
                 raise Refuse(f"{n}() of symbolic collection")
         if "default" in kwargs or "key" in kwargs:
